@@ -196,6 +196,34 @@ def shared_state():
     return out
 
 
+def shipped_printers():
+    """every printer the core package registers: '<file>:<target>:<function>' for each register_pretty(...) decorator or
+    register_pretty(...)(fn) call in prettyprinter.py and pretty_stdlib.py (the extras register theirs on install)"""
+    out = []
+    for rel in ('prettyprinter/prettyprinter.py', 'prettyprinter/pretty_stdlib.py'):
+        tree = _parse(rel)
+        short = rel[len('prettyprinter/'):]
+
+        def is_reg(call):
+            return isinstance(call, ast.Call) and isinstance(call.func, ast.Name) and call.func.id == 'register_pretty'
+
+        def target(call):
+            if call.args:
+                return ast.unparse(call.args[0])
+            return ','.join('%s=%s' % (k.arg, ast.unparse(k.value)) for k in call.keywords)
+        for node in ast.walk(tree):
+            if isinstance(node, ast.FunctionDef):
+                if node.name == 'register_pretty':
+                    continue
+                for dec in node.decorator_list:
+                    if is_reg(dec):
+                        out.append('%s:%s:%s' % (short, target(dec), node.name))
+            elif isinstance(node, ast.Call) and is_reg(node.func) and node.args:
+                out.append('%s:%s:%s' % (short, target(node.func), ast.unparse(node.args[0])))
+    # the docstring example inside register_pretty is not a registration
+    return [x for x in out if not x.endswith(':pretty_ordereddict') or x.startswith('pretty_stdlib.py')]
+
+
 def lean_str_list(xs):
     return '[' + ', '.join('"%s"' % x for x in xs) + ']'
 
@@ -225,6 +253,8 @@ def generate():
     lines.append('def defaultIndent : Nat := %s' % cfg.get('indent', '0'))
     lines.append('/-- state that outlives one call, as far as the syntax of the package shows it (see translator.shared_state) -/')
     lines.append('def sharedState : List String := ' + lean_str_list(shared_state()))
+    lines.append('/-- every printer the core package registers (see translator.shipped_printers) -/')
+    lines.append('def shippedPrinters : List String := ' + lean_str_list(shipped_printers()))
     lines.append('')
     lines.append('end PP.Generated')
     return '\n'.join(lines) + '\n'
